@@ -61,6 +61,19 @@ func genC06(c *Ctx) {
 			}
 		}
 	}
+	// nil is a result: concurrent map to a pointer type whose mapper returns nil for every third element
+	for cc := 1; cc <= maxC; cc++ {
+		for _, n := range []int{0, 1, 2, 3, 5, 4*cc + 1} {
+			emit(n >= 2, fmt.Sprintf("cmap c=%d n=%d sync=1 mg=0 ptr=1 script=-", cc, n))
+			emit(n >= 2, fmt.Sprintf("cmap c=%d n=%d sync=0 mg=0 ptr=1 yield=1 script=-", cc, n))
+		}
+	}
+	// a source that goes quiet for a while in the middle (longer than any plausible idle time-out) and then continues
+	for _, cc := range []int{1, 2, 4} {
+		emit(true, fmt.Sprintf("ccons c=%d n=%d sync=0 mg=0 slowat=%d slowms=160 script=-", cc, 2*cc+4, cc+2))
+		emit(true, fmt.Sprintf("cmap c=%d n=%d sync=0 mg=0 slowat=%d slowms=160 script=-", cc, 2*cc+4, cc+2))
+		emit(true, fmt.Sprintf("ccons c=%d n=%d sync=0 mg=0 slowat=0 slowms=160 script=-", cc, 3*cc+2))
+	}
 	// seeded random: longer streams (0..4c+3), higher concurrency, back-pressure from a gated consumer, gated source
 	nr := c.Pick(250, 4000)
 	for i := 0; i < nr; i++ {
